@@ -239,6 +239,13 @@ func runC07(c *Ctx) {
 			}
 			p.Items = append(p.Items, &asm.Equ{Name: name, E: def})
 			equNames = append(equNames, name)
+			if r.Chance(1, 10) {
+				// a second name in front of the same EQU
+				also := []string{"also_a", "also_b", "T2", "q_"}[k]
+				p.Items = append(p.Items, &asm.Equ{Name: also, E: def, JoinPrev: true})
+				equNames = append(equNames, also)
+				c.Inc("equ_lines_defining_two_names")
+			}
 		}
 		pureAtoms := []asm.Expr{}
 		for _, nm := range equNames {
